@@ -1,0 +1,48 @@
+//go:build verif
+
+// Contracts for gvc (/verif). Comment-only: this file adds no declarations.
+
+package diag
+
+// C37: error positions point at the right lines and columns.
+// nl(s, a, c) is the number of '\n' bytes in s[a:c] (engine built-in, axioms NLAX).
+
+//@ func firstLine
+//@   props C37
+//@   pure
+//@   ensures len(result) <= len(s) && result === s[:len(result)]
+//@   ensures nl(s, 0, len(result)) == 0
+//@   ensures len(result) == len(s) || s[len(result)] == '\n'
+
+//@ func lastLine
+//@   props C37
+//@   pure
+//@   ensures len(result) <= len(s) && result === s[len(s)-len(result):]
+//@   ensures nl(s, len(s) - len(result), len(s)) == 0
+//@   ensures len(result) == len(s) || s[len(s)-len(result)-1] == '\n'
+
+// End of the reported body: a trailing newline of the culprit is not part of it.
+//@ spec fn bodyend(source string, r Ranging) int = (r.To > r.From && source[r.To-1] == '\n') ? r.To - 1 : r.To
+
+//@ func getContextDetails
+//@   props C37
+//@   pure
+//@   requires 0 <= r.From && r.From <= r.To && r.To <= len(source)
+//   start position: 1-based line = newlines before From, + 1; column = bytes since the line start, + 1
+//@   ensures result.startLine == nl(source, 0, r.From) + 1
+//@   ensures result.startCol >= 1 && result.startCol - 1 <= r.From
+//@   ensures result.head === source[r.From - (result.startCol - 1) : r.From]
+//@   ensures nl(source, r.From - (result.startCol - 1), r.From) == 0
+//@   ensures r.From - (result.startCol - 1) == 0 || source[r.From - result.startCol] == '\n'
+//   body and end position (inclusive column of the last byte of the body)
+//@   ensures result.body === source[r.From : bodyend(source, r)]
+//@   ensures result.endLine == result.startLine + nl(source, r.From, bodyend(source, r))
+//@   ensures result.endLine == result.startLine ==> result.endCol == result.startCol + (bodyend(source, r) - r.From) - 1
+//@   ensures result.endLine != result.startLine ==> 0 <= result.endCol && result.endCol < bodyend(source, r) - r.From
+//@   ensures result.endLine != result.startLine ==> nl(source, bodyend(source, r) - result.endCol, bodyend(source, r)) == 0
+//@   ensures result.endLine != result.startLine ==> source[bodyend(source, r) - result.endCol - 1] == '\n'
+//   tail: rest of the last line, empty when the culprit ended in a newline
+//@   ensures bodyend(source, r) != r.To ==> len(result.tail) == 0
+//@   ensures bodyend(source, r) == r.To ==> r.To + len(result.tail) <= len(source) && result.tail === source[r.To : r.To + len(result.tail)]
+//@   ensures bodyend(source, r) == r.To ==> nl(source, r.To, r.To + len(result.tail)) == 0
+//@   ensures bodyend(source, r) == r.To ==> r.To + len(result.tail) == len(source) || source[r.To + len(result.tail)] == '\n'
